@@ -564,6 +564,20 @@ def r1_4(ctx, rep):
         "entry point is parse (which carries the end-of-input check), not a sub-production",
         "model_description does not call Parser(...).parse() on Scanner(...).scan()")
     ctx.md_scan_call = inner
+    # ... on every path: no return of model_description that is not preceded by the parse of THIS formula (a result looked up
+    # under a derived key - blanks removed, lower-cased - belongs to another string)
+    if chain is not None:
+        cmd = cfg_of(md)
+        holder = next((st for st in walk_local(md.node) if isinstance(st, ast.stmt) and any(n is chain for n in ast.walk(st))
+                       and not isinstance(st, (ast.If, ast.For, ast.While, ast.Try, ast.With, ast.FunctionDef))), None)
+        rets_md = [r_ for r_ in walk_local(md.node) if isinstance(r_, ast.Return)]
+        okd = holder is not None and bool(rets_md)
+        if okd:
+            hn = cmd.node_of(holder)
+            okd = all(cmd.dominates(hn, cmd.node_of(r_)) for r_ in rets_md) and not cmd.falls_off()
+        bad_ret = next((r_ for r_ in rets_md if holder is not None and not cmd.dominates(cmd.node_of(holder), cmd.node_of(r_))), None)
+        obl(rep, md, bad_ret or md.node, "R1.4", okd, "every return of model_description comes after the parse of its own formula", "",
+            "model_description can return without scanning and parsing the formula it was given (a cached / looked-up description)")
     from . import shared as _sh0
     _sh0.formula_text_untouched(prog, rep, "R1.4")
 
@@ -985,6 +999,35 @@ def r1_9(ctx, rep):
             loops = [n for n in walk_local(scan.node) if isinstance(n, ast.While)]
             if loops:
                 okdef = okdef and c.dominates(c.node_of(loops[0]), c.node_of(defs[0]))
+        # ... of the COMPLETE token list: between the scanning loop and this count nothing removes, replaces or re-binds tokens
+        # (only the end-of-input sentinel is appended).  A `~` dropped before it is counted is a `~` that is never refused.
+        if len(defs) == 1:
+            dn = c.node_of(defs[0])
+            early = []
+            for st in walk_local(scan.node):
+                hit = None
+                if isinstance(st, (ast.Assign, ast.AugAssign, ast.Delete)):
+                    tg = st.targets if isinstance(st, (ast.Assign, ast.Delete)) else [st.target]
+                    for t_ in tg:
+                        b_ = t_
+                        while isinstance(b_, ast.Subscript):
+                            b_ = b_.value
+                        if unparse(b_) == "self.tokens":
+                            hit = st
+                elif isinstance(st, ast.Expr) and isinstance(st.value, ast.Call) and isinstance(st.value.func, ast.Attribute) \
+                        and unparse(st.value.func.value) == "self.tokens" and st.value.func.attr in ("pop", "remove", "insert", "clear", "reverse", "sort", "extend", "__delitem__", "__setitem__"):
+                    hit = st
+                if hit is not None:
+                    try:
+                        hn = c.node_of(hit)
+                    except Exception:  # noqa: BLE001
+                        continue
+                    # it can run before the count: it does not come after it on every path
+                    if not c.dominates(dn, hn):
+                        early.append(hit)
+            obl(rep, scan, early[0] if early else defs[0], "R1.9", not early,
+                "the token list is not modified between scanning and counting the `~` tokens (only the sentinel is appended)", "",
+                f"`{short(early[0], 70) if early else ''}` changes self.tokens before the `~` tokens are counted: a `~` removed here is never refused")
         if not okdef and len(defs) == 1 and isinstance(defs[0].value, ast.Call):
             # not a comprehension at all (itertools, a helper, ...): neither recognisably right nor recognisably wrong
             rep.defer(f"R1.9: the definition of `{xname}` (`{short(defs[0].value, 60) if defs else '?'}`) is not a form the tilde model reads")
